@@ -43,14 +43,14 @@ FLOORS = {
                                                "c12.reflexivity_checked": 500, "bij.loaded_checked": 150,
                                                "c12.non_identity_bijections": 15,
                                                "c12.bijections_through_multi_step_moving_path": 4}},
-    "thorough": {"nontrivial": 1500, "counters": {"bij.constructed_checked": 4500, "bij.points_mapped": 800000,
-                                                   "iso.symmetry_checked": 10000, "iso.answer_false": 1100,
-                                                   "c12.bijections_through_multi_step_moving_path": 50}},
+    "thorough": {"nontrivial": 1000, "counters": {"bij.constructed_checked": 3000, "bij.points_mapped": 600000,
+                                                   "iso.symmetry_checked": 7000, "iso.answer_false": 700,
+                                                   "c12.bijections_through_multi_step_moving_path": 30}},
 }
 # W5: the repository's own test suite runs once under these ambient monitors (thorough tier)
 W5_MONITORS = ['bijection']
 CASE_TIMEOUT = {"quick": 90, "thorough": 180}
-SIZES = {"quick": 600, "thorough": 6000}
+SIZES = {"quick": 600, "thorough": 4000}
 KINDS = ("relabel", "redundant", "repack", "repack", "reload", "self", "unrelated", "finder", "near", "symatom",
          "sympath", "sympath", "finder3", "finder3", "finder3", "rotated")
 
